@@ -134,6 +134,15 @@ CHECKS = {
                 "Known finding: a burst starting inside the stored CRC field can go undetected (format-level).",
         "technique": "Kani/CBMC bounded model checking of the real seglog readers with the real CRC-32 tables; counterexample values replayed natively",
     },
+    "C19": {
+        "text": "Bounded model checking of the verbatim size-estimate / EventsExceedSegmentSize / rollover-decision statement range of Worker::handle_append_events together with the verbatim size constants of bucket/segment.rs, "
+                "against a stored-size model (documented record layout; compressed records anywhere within the zstd worst-case bound; seglog's SegmentFull rule): for transactions of 1 and 2 events with any field lengths <= 100 kB, "
+                "compression on/off, any segment size 4 KiB..4 MiB and any fill level - unless rejected up front by the documented EventsExceedSegmentSize limit, a transaction whose stored size fits an empty segment fits "
+                "the segment the decision leaves it in, so no SegmentFull that would repeat on every retry.",
+        "note": TB + "the stored-size model is an assumption of the harness (confirmed on the real database by the native reproducer replay-cluster c19); zstd itself is FFI and outside; the weaker reading of the statement is used "
+                "(the documented up-front size limit is not a violation).",
+        "technique": "Kani/CBMC bounded model checking of a verbatim statement-range slice (integer arithmetic over symbolic sizes)",
+    },
     "C22": {
         "text": "ONE KERNEL of C22 only (everything else in the property - command histories over TCP against a model - is not encodable and not claimed): bounded model checking of the verbatim statement block of "
                 "EMAppend::handle_request that rebuilds per-event stream versions from the cluster reply: for 3 events over two streams with symbolic assignment and full-u64 start versions, no panic and versions start, start+1, ... per stream in event order.",
@@ -159,7 +168,6 @@ NOT_APPLICABLE.update({
     "C04": "not reached: commit matching (SegmentBlock::read_committed_events) decodes bincode RawEvent/RawCommit records through the sierradb crate; no overlay of that crate was built - nothing claimed",
     "C05": "attempted, no verdict: Writer::open's recovery scan is a data-dependent loop (every CRC outcome forks, the resume offset then indexes every buffer); CBMC did not finish one crash cut in 20 min even with the cut, "
            "lengths and start offset concrete (harness kept as harness/seglog/c05.rs, not registered); hydration of the indexes (K2) needs the sierradb indexes - nothing claimed",
-    "C19": "not reached: the size estimate is inline in Worker::handle_append_events and needs the bincode-encoded record sizes; no harness built - nothing claimed",
     "C21": "not reached: the command parsers are `combine` parser combinators over heap strings (weak solver target); no harness built - nothing claimed",
 })
 for _p in CHECKS:
